@@ -128,15 +128,23 @@ def MDS():
     return [None, {}, {"a": 1}, {"nested": {"x": [1, 2.5, "s"]}}, {"t": torch.arange(3)}]
 
 
-def mk(kind, arch):
+def mk(kind, arch, custom=False):
     L = lib()
+    kw = {}
+    if custom and kind != "positive":
+        # a user-supplied dictionary that LACKS one of the default letters and adds one
+        d = L.unitaries.create_dict()
+        ud = {"Z": d["Z"], "X": d["X"], "H": torch.tensor([[[1.0, 1.0], [1.0, -1.0]], [[0.0, 0.0], [0.0, 0.0]]], dtype=torch.double) / math.sqrt(2)}
+        kw = dict(unitary_dict=ud)
     if kind == "mixed":
-        return L.DensityMatrix(arch[0], arch[1], arch[2], gpu=False)
-    return L.types[kind](arch[0], arch[1], gpu=False)
+        return L.DensityMatrix(arch[0], arch[1], arch[2], gpu=False, **kw)
+    if kind == "positive":
+        return L.types[kind](arch[0], arch[1], gpu=False)
+    return L.types[kind](arch[0], arch[1], gpu=False, **kw)
 
 
 DATA = torch.tensor([[0.0, 1.0], [1.0, 1.0], [1.0, 0.0]], dtype=torch.double)
-BASES = np.array([list("ZZ"), list("XY"), list("ZZ")])
+BASES = np.array([list("ZZ"), list("XZ"), list("ZZ")])  # only letters every dictionary in this world has
 
 
 class World:
@@ -145,7 +153,7 @@ class World:
         self.kind = root["kind"]
         self.dir = tempfile.mkdtemp(prefix="c11_", dir=os.path.join(HOME, ".work"))
         torch.manual_seed(1)
-        self.M = [mk(self.kind, root["arch"]), mk(self.kind, root["arch"])]
+        self.M = [mk(self.kind, root["arch"]), mk(self.kind, root["arch"], custom=True)]
         self.mds = MDS()
         self.F = [os.path.join(self.dir, "f0.pt"), os.path.join(self.dir, "f1.pt")]
         # reference model
@@ -188,6 +196,8 @@ class World:
                 rb = getattr(m, net)
                 rb.visible_bias.data += 0.3 * (r + 1)
                 rb.hidden_bias.data -= 0.2 * (r + 1)
+                if hasattr(rb, "aux_bias"):
+                    rb.aux_bias.data += 0.15 * (r + 1)  # whatever state is saved must come back, phase auxiliary bias included
             self.refM[op[1]] = abs_model(m)  # the property does not constrain what randomise produces
         elif kind == "train":
             torch.manual_seed(7)
@@ -246,6 +256,7 @@ class World:
                 return out
             rf = self.refF[fi]
             self.refM[1] = (rf[0], rf[1], self.refM[0][2])
+            self.M1_custom = False
         elif kind == "badkey":
             key = op[2]
             reserved = key in self.networks or (key == "unitary_dict" and has_ud(self.M[0]))
